@@ -40,6 +40,14 @@ Theorem C10_inplace_sites_fresh : inplace_ok = true.
 Proof. exact inplace_checked. Qed.
 Print Assumptions C10_inplace_sites_fresh.
 
+(* C10_inplace_sites_fresh accepts a write into self.values / self._metadata (provenance 3 / 4) in any function; the statement
+   allows them only in the sanctioned mutators.  Pinned by name: every in-place site is a fresh local, the reviewed
+   parameter writer (_compute_spectral_inversion, whose callers pass fresh arrays), or exactly one of
+   Tsd/TsdFrame/TsdTensor.__setitem__ (values), set_info (metadata), TsGroup.__setitem__ (metadata). *)
+Theorem C10_inplace_sites_pinned : inplace_pinned_ok = true.
+Proof. exact inplace_pinned_checked. Qed.
+Print Assumptions C10_inplace_sites_pinned.
+
 Example C10_nonvacuous :
   (50 <= length inplace_table)%nat /\ (4 <= length inplace_callers)%nat /\ (6 <= length guard_table)%nat
   /\ let h : heap nat := fun l => if Nat.eqb l 0 then Some 7 else None in
